@@ -1,7 +1,7 @@
 #!/usr/bin/env python3
 """One shard of the C16 fault check: recording pass (which syscall ordinals lie inside which call
 into the crate) + one injected run per (call, syscall class, ordinal[, errno])."""
-import json, os, re, subprocess, sys, time, shutil
+import random, json, os, re, subprocess, sys, time, shutil
 
 CLASSES = {
     "write": ["ENOSPC", "EIO"],
@@ -106,6 +106,9 @@ def main():
         runs_here = 0
         complete = True
         tree, markers, result = (os.path.join(scratch, x) for x in ("tree", "markers", "result.json"))
+        # seeded shuffle: within a time budget every kind of call and every phase of it gets its share of injections
+        # (in history order the budget would be spent on the first few flushes)
+        random.Random(seed * 1000003 + case_no).shuffle(positions)
         for (op, opname, cls, ordn) in positions:
             errnos = classes[cls] if all_errnos else [classes[cls][ordn % len(classes[cls])]]
             for errno in errnos:
